@@ -943,8 +943,7 @@ Qed.
 Lemma cur_locks_set_mhp_op t m : cur_locks (fst (set_mhp_op t m)) = cur_locks t.
 Proof. unfold cur_locks. rewrite set_mhp_op_locks. reflexivity. Qed.
 
-Lemma stream_in_fst t im :
-  fst (stream_in c t im) =
+Definition stream_in_pre (t : table) (im : image) : table :=
   fst (set_mhp_op
     (set_mlf
       (let t1 := set_cur t {| bhp := ihp im; bsl := isl im; bdead := false |} in
@@ -955,16 +954,29 @@ Lemma stream_in_fst t im :
        else t3)
       (imlfn im) (imlfd im))
     (imhp im)).
+
+(* the result of operator>> is [stream_in_pre] up to the resize-counter bump at the end *)
+Lemma stream_in_fst t im :
+  cur (fst (stream_in c t im)) = cur (stream_in_pre t im) /\
+  locks (fst (stream_in c t im)) = locks (stream_in_pre t im).
 Proof.
-  unfold stream_in. cbv zeta.
-  match goal with |- fst (let '(a, b) := ?x in (a, b)) = _ => destruct x end.
-  reflexivity.
+  unfold stream_in, stream_in_pre. cbv zeta.
+  match goal with |- context [let '(a, b) := ?x in _] => destruct x as [t6 o] end.
+  cbn [fst].
+  destruct o as [|r0 o']; [split; reflexivity|].
+  destruct r0; try (split; reflexivity).
+  destruct o'; split; reflexivity.
 Qed.
+
+Lemma stream_in_cur_locks_pre t im :
+  cur_locks (fst (stream_in c t im)) = cur_locks (stream_in_pre t im).
+Proof. unfold cur_locks. destruct (stream_in_fst t im) as [_ Hl]. rewrite Hl. reflexivity. Qed.
 
 Lemma stream_in_cur t im :
   cur (fst (stream_in c t im)) = {| bhp := ihp im; bsl := isl im; bdead := false |}.
 Proof.
-  rewrite stream_in_fst, set_mhp_op_cur. cbv zeta. cbn [cur set_mlf].
+  destruct (stream_in_fst t im) as [Hcur _]. rewrite Hcur. unfold stream_in_pre.
+  rewrite set_mhp_op_cur. cbv zeta. cbn [cur set_mlf].
   destruct (0 <? isize im).
   - rewrite st_cur_upd_cur_lock. cbn [cur set_locks]. rewrite maybe_resize_locks_cur. reflexivity.
   - cbn [cur set_locks]. rewrite maybe_resize_locks_cur. reflexivity.
@@ -975,7 +987,7 @@ Lemma stream_in_sum t im :
   sum_cnt (cur_locks (fst (stream_in c t im))) = Z.of_N (isize im).
 Proof.
   intros Hne Hcl.
-  rewrite stream_in_fst, cur_locks_set_mhp_op. cbv zeta.
+  rewrite stream_in_cur_locks_pre. unfold stream_in_pre. rewrite cur_locks_set_mhp_op. cbv zeta.
   match goal with |- context [cur_locks (set_mlf ?x ?n ?d)] =>
     change (cur_locks (set_mlf x n d)) with (cur_locks x) end.
   set (t1 := set_cur t {| bhp := ihp im; bsl := isl im; bdead := false |}).
